@@ -110,7 +110,7 @@ def run(ctx):
                        'kmip/services/server/*.py) or public, and whose transitive effect set meets a per-request field, '
                        'is decorated with _synchronize')
     ctx.rule('C10.R2', '_synchronize wraps exactly one call of the function in `with self._lock`; the lock is created once in __init__')
-    ctx.rule('C10.R3', 'no module-level or class-level mutable state is written from functions of engine/session/policy/crypto modules; '
+    ctx.rule('C10.R3', 'no module-level or class-level mutable state is written from functions of the engine/session/policy/crypto modules or of the authentication helpers (kmip/services/server/auth/*, which run on the session threads outside the engine lock); '
                        'the session stores only to its own instance fields')
     ctx.rule('C10.R4', 'the session never reads a per-request engine field; values used for the response come from the tuple returned under the lock')
 
@@ -155,7 +155,8 @@ def run(ctx):
 
     # ---- R3
     n_funcs = 0
-    for rel in SHARED_MODULES:
+    # the authentication helpers run on the session threads, before the engine lock is taken
+    for rel in SHARED_MODULES + [r for r in src.modules('kmip/services/server/auth')]:
         t = src.tree(rel)
         modnames = set()
         for s in t.body:
